@@ -25,4 +25,4 @@ Definition tags_after (tags0 : str -> option node) (ref : str) (st : state) : st
 
 (* configuration of the copyGraph run that Copy starts *)
 Definition copy_cfg (dflt opt : Z) (refpusher mount : bool) (root : node) (cached0 : list node) : cfg :=
-  mkCfg (eff_K dflt opt) (if refpusher then MRefPush else MTagger) root mount cached0.
+  mkCfg (eff_K dflt opt) (if refpusher then MRefPush else MTagger) root mount true cached0.
